@@ -42,6 +42,11 @@ func (zo *Object) GetObjectName() string {
 }
 
 func (zo *Object) IsInstanceOf(classModel *ClassModel) bool {
+	// an execution works on its own copy of a library's type: objects made
+	// from the copy are instances of the library's type as well
+	if zo.model != nil && zo.model.origin != nil && zo.model.origin == classModel {
+		return true
+	}
 	return zo.model == classModel
 }
 
